@@ -176,13 +176,14 @@ def _write(path, evs):
             f.write(json.dumps(r) + "\n")
 
 
-def selftest(pid, wd, tpath):
+def selftest(pid, wd, tpath, skip_runs=()):
     """Corrupt accepted runs in ways that break each obligation; every corruption must be rejected."""
     runs = {}
     with open(tpath) as f:
         for ln in f:
             r = json.loads(ln)
-            runs.setdefault(r["run"], []).append(r)
+            if r["run"] not in skip_runs:
+                runs.setdefault(r["run"], []).append(r)
     muts = []
 
     def first_run(pred):
@@ -197,19 +198,26 @@ def selftest(pid, wd, tpath):
     if evs:
         m = copy.deepcopy(evs); m[k]["valid"] = False; muts.append(("claim-invalid", m))
         m = copy.deepcopy(evs); m[k]["final"] = False; muts.append(("claim-not-final", m))
-    # (2) a claim that never confirmed is dropped: its outpoints were idle meanwhile
-    def unconfirmed_claim(evs):
+    # (2) a claim is dropped that was, at some checkpoint, the only live claim of an output the node had to claim
+    def needed_claim(evs):
         c = confirmed(evs)
-        for i, e in enumerate(evs):
-            if e["ev"] == "bcast" and not e["dup"] and e["by"] < 2 and e["kind"] == "Claim" and e["tx"] not in c:
-                # only if no other claim of the same outpoints was live at that checkpoint
-                same = [x for x in evs[:i] if x["ev"] == "bcast" and not x["dup"] and x["by"] == e["by"] and x["ins"] == e["ins"]]
-                if not same and all(i2 and i2[0] != 0 for i2 in e["ins"]) and all(a["amt"] >= ECON for a in e["outs"]):
-                    return i
+        cands = [e for e in evs if e["ev"] == "bcast" and not e["dup"] and e["by"] < 2 and e["kind"] == "Claim" and e["tx"] not in c]
+        for e in cands[:12]:
+            for p, x in enumerate(evs):
+                if x["ev"] != "state":
+                    continue
+                v = View(evs, p + 1)
+                if e["tx"] not in v.txs or not v.com:
+                    continue
+                del v.txs[e["tx"]]
+                amt = {(v.com["tx"], r["v"]): r["amt"] for r in v.com["outs"]}
+                unc = v.uncovered(e["by"])
+                if unc and all(amt.get(o, ECON) >= ECON for o in unc):
+                    return e["tx"]
         return None
-    evs, k = first_run(unconfirmed_claim)
+    evs, k = first_run(needed_claim)
     if evs:
-        m = [e for i, e in enumerate(evs) if i != k]; muts.append(("claim-dropped", m))
+        m = [e for e in evs if not (e["ev"] == "bcast" and e["tx"] == k)]; muts.append(("claim-dropped", m))
     # (3) a re-issued claim with a lower feerate
     def rebump(evs):
         seen = {}
@@ -372,7 +380,7 @@ def run_check(pid, tier, seed, assumptions):
     nrand = 3000 if thorough else 330
     batches = [("tlc", ["--scripts", spath]), ("random", ["--random", nrand, "--profile", prof])]
     nviol, total_events, total_runs, panics, known_hits = 0, 0, 0, 0, {}
-    stats, good_traces = {}, []
+    stats, good_traces, bad_runs = {}, [], {}
     for bi, (bname, args) in enumerate(batches):
         tpath = os.path.join(wd, "trace-%s.ndjson" % bname)
         vlib.run_bin(bins["onchain"], args + ["--seed", seed * 100 + bi, "--out", tpath], discard_stdout=True, timeout=6000)
@@ -396,6 +404,7 @@ def run_check(pid, tier, seed, assumptions):
             for ln in f:
                 sj = json.loads(ln)
                 scripts_of[sj["run"]] = sj
+        bad_runs[bname] = {fl["run"] for fl in fails}
         for fl in fails:
             key = classify(fl)
             vlib.log("[reject] batch %s run %s at event %d (%s, %s)%s" % (bname, fl["run"], fl["pos_in_run"], fl["rec"].get("ev"),
@@ -425,7 +434,7 @@ def run_check(pid, tier, seed, assumptions):
     st = None
     if nviol == 0:
         src = os.path.join(wd, "trace-random.ndjson")
-        st = selftest(pid, wd, src)
+        st = selftest(pid, wd, src, bad_runs.get("random", ()))
         vlib.log("[selftest] %s" % st)
 
     samples = conv[:2]
